@@ -260,6 +260,10 @@ def pinned_cases(net=NET):
     # the stderr back channel of the rsh protocol (xrcmd's circuit setup) with a peer that never connects back
     add("noback", 1, 0, None, "mid")
     add("noback", 2, 2, 1, "first")
+    # mixed transports the other way round: -R exec is the default, one `rsh:` host hangs in connect; each transport's
+    # option post-processing runs, the built-in connect timeout (10 s) must still abandon the rsh host
+    add("hang", 10, 0, None, "mid")
+    out[-1]["rdefault"] = "exec"
     return out
 
 
@@ -292,11 +296,18 @@ def run_case(exe, shim, helper, case, scratch, hard_timeout=None):
             hard_timeout = expected_wall(case) + 4.0 + 1.0     # the bound, the slack, and 1 s more
     script = ";".join("%s=%s" % (a, "hang" if kd == "hang" else "refuse:0") for a, kd in case["hosts"]
                       if kd in ("hang", "refuse"))
-    words = ",".join(("exec:" + a) if kd in ("exec", "chatty", "dies", "exits") + TEARDOWN_KINDS else a
-                     for a, kd in case["hosts"])
+    local = ("exec", "chatty", "dies", "exits") + TEARDOWN_KINDS
+    if case.get("rdefault") == "exec":
+        # the other way round: exec is the default transport (-R exec), the network hosts carry the `rsh:` prefix; -t
+        # cannot be given with -R exec, so the connect timeout is the built-in default (case["ct"] says what it is)
+        words = ",".join(a if kd in local else "rsh:" + a for a, kd in case["hosts"])
+    else:
+        words = ",".join(("exec:" + a) if kd in local else a for a, kd in case["hosts"])
     # (stderr travels on a connection of its own by default in this build: opt.c separate_stderr = true, there is
     # no -s option; so every rsh target goes through xrcmd's circuit setup)
     argv = [exe, "-R", "rsh", "-t", str(case["ct"]), "-f", str(case["fanout"])]
+    if case.get("rdefault") == "exec":
+        argv = [exe, "-R", "exec", "-f", str(case["fanout"])]
     if case["ut"] > 0:
         argv += ["-u", str(case["ut"])]
     argv += ["-w", words, helper, "%h", case["token"]]
